@@ -32,18 +32,32 @@ CLAIMS = {
  "C20": ("design model check + trace validation: one callback per evaluation, convention by signature, argument Acceptable among evaluations so far and equal to what would be returned, stop semantics", "5/C20"),
 }
 
+ENGINE = {"C01": "tlc-trace", "C02": "tlc-trace", "C05": "tlc-trace", "C06": "tlc-trace", "C07": "tlc-trace",
+          "C08": "tlc-trace", "C09": "tlc-trace", "C20": "tlc-trace", "C03": "tlc-design+replay", "C18": "tlc-design+replay",
+          "C11": "tlc-design+replay", "C12": "tlc-design+replay", "C13": "tlc-oracle", "C14": "tlc-oracle",
+          "C15": "tlc-oracle", "C16": "tlc-oracle", "C04": "tlc-oracle", "C17": "tlc-oracle", "C19": "tlc-oracle",
+          "C10": "tlc-oracle"}
+NOTES = {
+ "tlc-trace": T_NOTE,
+ "tlc-design+replay": "Trusted: TLC (and Apalache for the unbounded invariant of C18); the replayer that drives the real objects through the exported behaviours and compares projected state; the recorder for the trace part. Bounded by the constants of the model-checking configurations (stated in the evidence).",
+ "tlc-oracle": "Trusted: TLC's integer / rational evaluation of the specification module that carries the expected result; the harness that instantiates instances, calls the real code and measures floats (norms, residuals, distances) before handing them back as order keys; tolerances stated in the evidence. Bounded by the finite universes of the module.",
+}
 checks = []
-for pid, (text, ref) in CLAIMS.items():
+for pid, (text, ref) in sorted(CLAIMS.items()):
+    eng = ENGINE[pid]
     checks.append({
         "property_id": pid,
         "quick_cmd": f"bin/check {pid} --tier quick",
         "thorough_cmd": f"bin/check {pid} --tier thorough",
         "evidence_file": f"/verif/evidence/{pid}.json",
         "replay_cmd_template": f"bin/check {pid} --replay {{path}}",
-        "engine": "tlc-trace",
+        "engine": eng,
         "level_claimed": {"category": "model_checking", "text": text, "design_ref": ref},
-        "level_note": T_NOTE,
-        "technique": "TLA+ specification checked with TLC; traces recorded from the real code validated against the trace specification; TLC-generated states replayed into the code",
+        "level_note": NOTES[eng],
+        "technique": "TLA+ specification checked with TLC; " + {
+            "tlc-trace": "design model + traces recorded from the real code validated against the trace specification (monitor style)",
+            "tlc-design+replay": "exhaustive design model + TLC-generated behaviours replayed into the real objects + trace validation",
+            "tlc-oracle": "TLC-enumerated universe with TLC-computed exact expected results; observed outcomes validated by TLC on order keys"}[eng],
     })
 
 na = [{"property_id": p["id"], "reason": "check not built yet (build in progress, see DESIGN.md section 5)"}
@@ -57,8 +71,12 @@ m = {
            "baseline_off_cmd": "cd /repo && /venv/bin/python -m pytest -ra -q -p no:cacheprovider --timeout=900 --continue-on-collection-errors",
            "source_commits": [], "add_only": True},
  "engines": [
-   {"name": "tlc-trace", "path": "/verif/spec/TraceCobyqa.tla", "serves_properties": sorted(CLAIMS),
-    "kind_free_text": "TLA+ trace specification (monitor style) over CobyqaCore.tla clauses; TLC batch validation of recorded runs"},
+   {"name": "tlc-trace", "path": "/verif/spec/TraceCobyqa.tla", "serves_properties": sorted(p for p in CLAIMS if ENGINE[p] == "tlc-trace") + ["C03", "C12", "C13", "C14", "C18"],
+    "kind_free_text": "TLA+ trace specification (monitor style) over the clauses of CobyqaCore.tla; TLC batch validation of runs recorded by harness/recorder.py; design model Cobyqa.tla generates the same events"},
+   {"name": "tlc-design+replay", "path": "/verif/spec", "serves_properties": sorted(p for p in CLAIMS if ENGINE[p] == "tlc-design+replay"),
+    "kind_free_text": "Filter.tla, TrustRegion.tla (+ apalache/TrustRegionInd.tla), Reentrancy.tla / Pair.tla, InterpBook.tla: exhaustive or simulated model checking, behaviours exported as JSON and replayed into Problem / TrustRegion / Models / minimize"},
+   {"name": "tlc-oracle", "path": "/verif/spec", "serves_properties": sorted(p for p in CLAIMS if ENGINE[p] == "tlc-oracle"),
+    "kind_free_text": "Interp.tla, Subproblem.tla, RefProblems.tla, Constraints.tla, Presolve.tla, Options.tla: universes and exact expected results computed by TLC (Bareiss, rationals, certificates), outcomes of the real code validated by TLC"},
  ],
  "checks": checks,
  "notes": "See DESIGN.md. Exit codes: 0 held, 1 violation (VIOLATION line), 2 machinery failure.",
